@@ -118,6 +118,13 @@ def split_cases(out_lines):
 # ---------------------------------------------------------------------------------------------
 # parallel map with per-case timeout protection
 # ---------------------------------------------------------------------------------------------
+def from_code_under_test(e):
+    """the exception passed through amaranth_soc and was not raised by a harness frame"""
+    tb = traceback.extract_tb(e.__traceback__)
+    inner = tb[-1].filename if tb else ""
+    return any(f.filename.startswith(REPO + "/amaranth_soc") for f in tb) and not inner.startswith(VERIF)
+
+
 def _call(args):
     fn, a = args
     try:
@@ -125,7 +132,7 @@ def _call(args):
     except Exception as e:
         tb = traceback.extract_tb(e.__traceback__)
         inner = tb[-1].filename if tb else ""
-        if any(f.filename.startswith(REPO + "/amaranth_soc") for f in tb) and not inner.startswith(VERIF):
+        if from_code_under_test(e):
             # raised inside the code under test while a scenario was being built or run: the scenario is
             # unusable (the defect belongs to whichever property covers that code), not a harness crash
             return {"skip": True, "code_exception": f"{type(e).__name__}: {str(e)[:160]} at {os.path.basename(inner)}:{tb[-1].lineno}",
